@@ -29,4 +29,7 @@ fn main() {
     fs::write(format!("{dir}/sm_slice.rs"), sm).unwrap();
     let peers = slice(&n, "#[derive(Serialize, Deserialize)]\nstruct PeerAddrRecord", "/// OpenRaft-based node", "peer address records");
     fs::write(format!("{dir}/node_slice.rs"), peers).unwrap();
+    // the runtime path that records a peer address (add_learner / start): a method of OpenRaftNode
+    let method = slice(&n, "    async fn persist_peer_addr_if_needed", "    pub async fn set_custom_rpc_handler", "persist_peer_addr_if_needed");
+    fs::write(format!("{dir}/node_method_slice.rs"), format!("impl OpenRaftNode {{\n{method}}}\n")).unwrap();
 }
